@@ -457,6 +457,9 @@ def run_check(engine_cls, tier, base_seed, jobs=None, runs=None, budget_s=None, 
     os.makedirs(os.path.join(OUT, "evidence"), exist_ok=True)
     with open(os.path.join(OUT, "evidence", engine.PROPERTY + ".json"), "w") as f:
         json.dump(evidence, f, indent=1, sort_keys=True)
+    # a per-tier copy, so that a quick run does not erase what the last thorough run covered
+    with open(os.path.join(OUT, "evidence", "%s.%s.json" % (engine.PROPERTY, tier)), "w") as f:
+        json.dump(evidence, f, indent=1, sort_keys=True)
 
     if not quiet:
         print("%s tier=%s seed=%d: %d runs (%d skipped on budget) in %.1fs, %d distinct non-trivial signatures, "
